@@ -467,7 +467,7 @@ func RunFaultBlob(r *Run) {
 				{f.sec[2].rawSizeOff, f.sec[2].rawSizeLen}, {f.sec[2].blkSizeOff, f.sec[2].blkSizeLen},
 				{f.sec[3].rawSizeOff, f.sec[3].rawSizeLen}, {f.sec[3].blkSizeOff, f.sec[3].blkSizeLen}} {
 				old, _ := binary.Uvarint(base[vo[0]:])
-				for _, nv := range []uint64{0, 1, old - 1, old + 1, old + 7, old * 2, 127, 128, 16383, 16384} {
+				for _, nv := range []uint64{0, 1, old - 1, old + 1, old + 7, old * 2, 127, 128, 16383, 16384, 1 << 31, 1 << 32, 1 << 62, 1 << 63, 1<<63 + 12345, ^uint64(0), ^uint64(0) - 1} {
 					if nv == old {
 						continue
 					}
